@@ -1082,7 +1082,8 @@ def cases(tier, seed):
     for dialect, numeric, parts in (("cff", "int", 12), ("cff", "fixed", 6), ("cff", "real", 3),
                                     ("cff2", "int", 8), ("cff2", "fixed", 4), ("cff2-noblend", "int", 3)):
         for part in range(parts * (5 if T else 1)):
-            add("prog", dialect=dialect, numeric=numeric, part=part, n=40 if dialect == "cff" else 20)
+            add("prog", dialect=dialect, numeric=numeric, part=part,
+                n=(40 if dialect == "cff" else 20) if T else (30 if dialect == "cff" else 16))
     for part in range(6 if T else 2):
         add("long", dialect="cff", part=part, n=14)
         add("long", dialect="cff2", part=part, n=8)
@@ -1121,6 +1122,8 @@ def cases(tier, seed):
         if "/aots/" in r["path"] and r["path"] != "ttLib/tables/data/aots/base.otf":
             # 200 layout-test fonts sharing one set of outlines: two rewrites each, rotating
             ops = [FONT_OPS[ri % 6], FONT_OPS[(ri + 3) % 6]]
+        if big and not T:
+            ops = ["desubroutinize", "remove_hints", "convert"]     # quick: the large font gets the three core rewrites
         for op in ops:
             add("font", path=r["path"], op=op, **({"timeout": 600, "single": not T} if big else {}))
         ng = r.get("numGlyphs", 0)
@@ -1128,8 +1131,7 @@ def cases(tier, seed):
         nsl = max(1, -(-ng // step))
         if not T and big:
             # quick: a slice of the large font
-            add("fontcs", path=r["path"], lo=0, hi=150)
-            add("fontcs", path=r["path"], lo=900, hi=1050)
+            add("fontcs", path=r["path"], lo=880, hi=1000)
         else:
             for k in range(nsl):
                 add("fontcs", path=r["path"], lo=k * step, hi=min(ng, (k + 1) * step))
